@@ -17,6 +17,9 @@ Check(e) ==
   /\ Report(FailureLeavesBuffer(e), <<"BAD", "failed-parse-changed-buffer", l>>)
   /\ Report(ExactIffAll(e), <<"BAD", IF e.imm.out = "ok" /\ e.imm.n < e.len /\ e.exact.out = "ok"
                                      THEN "exact-size-accepts-trailing-bytes" ELSE "exact-size-disagrees", l>>)
+  \* a frame that is a conformant encoding by the protocol document (established by the wire specifications: a second
+  \* spelling of an accepted record, e.g. the padded SSL 2.0 header form) is accepted completely
+  /\ Report(e.must => e.imm.out = "ok" /\ e.imm.n = e.len, <<"BAD", "conformant-frame-rejected", l>>)
   \* C02: only the documented errors escape
   /\ Report(IsDocumented(e.imm.out) /\ IsDocumented(e.mut.out) /\ IsDocumented(e.exact.out), <<"LEAK", e.imm.out, l>>)
   \* framing units: self-delimiting, and n is the length the header declares
